@@ -53,6 +53,23 @@ pub fn authorize_once(case: &Value, pool: &[String], keys: &Keys, token: &Biscui
     out
 }
 
+/// the same, on the authorizer restored from a snapshot taken before anything ran
+pub fn authorize_via_snapshot(case: &Value, pool: &[String], keys: &Keys, token: &Biscuit) -> Option<Value> {
+    let ab = authorizer_builder_of(&case["az"], pool, keys).ok()?;
+    let az0 = ab.limits(limits_of(case)).build(token).ok()?;
+    let bytes = az0.to_raw_snapshot().ok()?;
+    let mut az = match Authorizer::from_raw_snapshot(&bytes) {
+        Ok(a) => a,
+        Err(e) => return Some(json!({"r": "restore-error", "kind": format!("{:?}", e)})),
+    };
+    let res = az.authorize();
+    let mut out = authz_outcome_j(&res);
+    out["iterations"] = json!(az.iterations());
+    out["fact_count"] = json!(az.fact_count());
+    out["queries"] = run_queries(case, pool, keys, &mut az);
+    Some(out)
+}
+
 pub fn run_case(case: &Value, keys: &Keys) -> Value {
     let case = case.clone();
     let r = std::panic::catch_unwind(std::panic::AssertUnwindSafe(|| {
@@ -74,6 +91,11 @@ pub fn run_case(case: &Value, keys: &Keys) -> Value {
             }
             Err(e) => {
                 out["reload_error"] = json!(format!("{:?}", e));
+            }
+        }
+        if let Some(o4) = authorize_via_snapshot(&case, &pool, keys, &token) {
+            if o4 != out {
+                out["snapshot_differs"] = o4;
             }
         }
         match token.seal() {
